@@ -52,10 +52,11 @@ def build_cases(rng, n_desc, gen_kwargs=None, values_per_stream=(2, 2, 1), decod
         descs.append((ps, is_resp, g))
     # load in batches of documents (one document per description keeps failures isolated)
     corpus = corpus_descs() if use_corpus else []
-    corpus_values, corpus_msgs = {}, {}
+    corpus_values, corpus_msgs, corpus_canon = {}, {}, {}
     for ps, is_resp, vals, *more in corpus:
         corpus_values[len(descs)] = vals
         corpus_msgs[len(descs)] = more[0] if more else []
+        corpus_canon[len(descs)] = more[1] if len(more) > 1 else []
         descs.append((ps, is_resp, None))
     for i, (ps, is_resp, g) in enumerate(descs):
         c = Case(ps, is_resp, f"m{i}")
@@ -94,6 +95,8 @@ def build_cases(rng, n_desc, gen_kwargs=None, values_per_stream=(2, 2, 1), decod
                 c.encs.append(dict(value=v, req=rq, stream="request-length", impl=cc.impl_encode(c.obj, v, rq)))
         # decode inputs: own encodings, their mutations, short strings
         msgs = [(bytes(m), "corpus") for m in corpus_msgs.get(i, [])]
+        # canonical PDUs (C03: they decode, and the decoded values encode to them again)
+        msgs += [(bytes(m), "canonical") for m in corpus_canon.get(i, [])]
         for e in c.encs:
             if e["impl"][0] == 0:
                 pdu = bytes(e["impl"][1])
@@ -221,7 +224,7 @@ def atomic_sweep_cases(rng, quick=True):
 
 def corpus_descs():
     """hand-written descriptions for feature combinations the random generator reaches rarely;
-    each entry: (params, is_response, value list)"""
+    each entry: (params, is_response, value list[, PDUs to decode[, canonical PDUs: C03 decodes and re-encodes them]])"""
     u8 = lambda: cc.simple(cc.std(cc.BUINT, 8))
     mm = lambda term, maxl=None: cc.simple(cc.minmax(cc.BBYTES, 0, maxl, term))
     item = lambda term: cc.struct([cc.param("i1", dict(k="value", dop=u8(), dflt=None)),
@@ -369,8 +372,15 @@ def corpus_descs():
                     [{"f": kitems[:n]} for n in (1, 2, 4)] + [{"f": kitems[1:3]}] +
                     # keys passed explicitly, right and wrong
                     [{"f": [{"len": 16, "blob": b"xy"}, {"len": 8, "blob": b"z"}]}, {"f": [{"len": 8, "blob": b"z"}, {"len": 8, "blob": b"xy"}]}],
-                    [bytes.fromhex(h) for h in (("22107879087a", "22087a107879", "2200", "2208") if fld["k"] == "eop"
-                                                else ("2202107879087a", "2202087a107879", "220100", "22020800"))]))
+                    [bytes.fromhex(h) for h in (("2208",) if fld["k"] == "eop" else ("22020800",))],
+                    [bytes.fromhex(h) for h in (("22107879087a", "22087a107879", "2200") if fld["k"] == "eop"
+                                                else ("2202107879087a", "2202087a107879", "220100"))]))
+    # LEADING-LENGTH strings with characters above 0x7F: the length counts the bytes as they are written
+    for bt, canon in ((cc.BASCII, ("2202e941", "2201ff", "2200")), (cc.BUTF8, ("2203c3a941", "2200")),
+                      (cc.BUNI, ("220400e90041", "2200"))):
+        out.append(([cc.param("sid", dict(k="coded", dct=cc.std(cc.BUINT, 8), v=0x22)),
+                     cc.param("t", dict(k="value", dop=cc.simple(cc.leading(bt, 8)), dflt=None))], False,
+                    [{"t": "\xe9A"}, {"t": "\u20acA"}, {"t": ""}, {"t": "A"}], [], [bytes.fromhex(h) for h in canon]))
     # LINEAR with a negative slope and only ONE internal limit (the physical limit it yields is the other one)
     for lo, hi in ((3, None), (None, 40), (3, 40)):
         dop = cc.simple(cc.std(cc.BUINT, 8), cc.linear(100, -2, 1, lo, hi))
